@@ -112,6 +112,65 @@ def wellposed_case(draw, graded, merge: str = "no"):
 
 
 @st.composite
+def merged_cross_case(draw):
+    """Merged interfaces that meet.  'cross': a 2 x 2 x k arrangement (k = 2-3 cells along the crossing line) with a
+    merged pair on each of the two mid planes, so the cells of one quadrant lie on the slave side of both pairs.
+    'channel': a column of k = 2-3 cells whose two side walls and roof are the slave patches of three merged pairs
+    (master blocks beside and above it), so both upper corners of every cross-section carry two slave patches.
+    Drawn names, sides, numberings, insertion order."""
+    k = draw(st.integers(2, 3))
+    perm = draw(st.permutations([0, 1, 2]))
+    shape = draw(st.sampled_from(["cross", "channel"]))
+    base = [2, 2, k] if shape == "cross" else [3, 2, k]
+    dims = [base[perm[a]] for a in range(3)]
+    ax = [perm.index(0), perm.index(1), perm.index(2)]  # lattice axis of the base x, y and line directions
+    ncell = dims[0] * dims[1] * dims[2]
+
+    def cell(u, v, w):
+        ijk = [0, 0, 0]
+        ijk[ax[0]], ijk[ax[1]], ijk[ax[2]] = u, v, w
+        return lt.cell_index(dims, *ijk)
+
+    if shape == "cross":
+        drop = draw(st.lists(st.integers(0, ncell - 1), max_size=3, unique=True))
+        cells = [c for c in draw(st.permutations(list(range(ncell)))) if c not in drop]
+        planes = [(ax[0], 1, draw(st.sampled_from(["low", "high"]))), (ax[1], 1, draw(st.sampled_from(["low", "high"])))]
+    else:
+        channel = [cell(1, 0, w) for w in range(k)]
+        around = [cell(u, v, w) for w in range(k) for u, v in ((0, 0), (2, 0), (1, 1))]
+        extra = [cell(u, 1, w) for w in range(k) for u in (0, 2)]
+        keep = draw(st.lists(st.sampled_from(around), min_size=3, max_size=len(around), unique=True))
+        keep += draw(st.lists(st.sampled_from(extra), max_size=2, unique=True))
+        cells = list(draw(st.permutations(channel + keep)))
+        planes = [(ax[0], 1, "low"), (ax[0], 2, "high"), (ax[1], 1, "high")]
+    case = {
+        "dims": dims, "widths": [[10.0 ** draw(st.floats(-0.5, 0.5)) for _ in range(dims[a])] for a in range(3)],
+        "jitter": [], "cells": cells, "orient": [draw(st.integers(0, 23)) for _ in cells], "chops": [],
+    }
+    names = draw(st.lists(st.sampled_from(lt.PATCH_NAMES), min_size=2 * len(planes), max_size=2 * len(planes), unique=True))
+    merges = []
+    for i, (a, at, master) in enumerate(planes):
+        low = [c for c in cells if lt.cell_ijk(dims, c)[a] == at - 1]
+        high = [c for c in cells if lt.cell_ijk(dims, c)[a] == at]
+        if low and high:
+            merges.append({"axis": a, "at": at, "master": master, "names": names[2 * i:2 * i + 2]})
+    if not merges:
+        return None
+    case["merges"] = merges
+    fams, _ = lt.lattice_families(case)
+    chops = []
+    for fam in fams:
+        c, d = draw(st.sampled_from(fam))
+        chops.append({"cell": c, "gdir": d, "args": lt.count_chop(draw)})
+    case["chops"] = list(draw(st.permutations(chops)))
+    case["mode"] = "merged-" + shape
+    case["picks"] = draw(_picks)
+    case["rewrite"] = draw(st.integers(0, 3)) == 0
+    lt.decorate(draw, case)
+    return case
+
+
+@st.composite
 def flanked_case(draw):
     """An un-chopped block B whose four edges in direction z all belong to chopped neighbours (A and D on either
     side), plus a block C that touches B: B becomes fully defined through copied edge gradings alone - the shape on
@@ -310,6 +369,8 @@ def check_order(case, ctx: Ctx) -> None:
     for v in case["variants"]:
         vc = dict(case)
         vc["cells"] = [case["cells"][i] for i in v["perm"]]
+        if case.get("zones"):
+            vc["zones"] = [case["zones"][i] for i in v["perm"]]
         vc["orient"] = list(v["orient"])
         vc["picks"] = v["picks"]
         if v.get("names") and case.get("merges"):
@@ -766,6 +827,10 @@ CELLS = [
          fixed_cases=_LIVELOCK),
     Cell("C02/complete/graded", wellposed_case(True), check_complete, 120, 6000,
          "well-posed graded chops (sizes, ratios, preserve) + drawn schedule"),
+    Cell("C02/complete/merged-cross", merged_cross_case().filter(lambda c: c is not None), check_complete, 150, 5000,
+         "2 x 2 x k cells with a merged pair on each of the two mid planes, or a channel of k cells whose walls and roof "
+         "are slave patches of three pairs (corners carrying two slave patches, drawn names): every block direction "
+         "gets its family's count"),
     Cell("C02/complete/merged", wellposed_case(False, merge="yes").filter(lambda c: bool(c.get("merges"))), check_complete, 200, 6000,
          "as complete/count with 1-2 merged (master / slave) patch pairs on lattice planes: corners on a slave patch are "
          "separate vertices, so families end at the interface - every block direction still gets its family's count"),
